@@ -82,14 +82,16 @@ impl<'a> SqlLexer<'a> {
     }
 
     pub fn next_token(&mut self) -> SqlTokenData {
-        // 如果在多行注释状态中，继续处理注释
-        if self.state == LexerState::LongComment(0) {
-            return self.scan_block_comment_continue();
-        }
-
+        // End of input first: inside an unterminated block comment `scan_block_comment_continue`
+        // returns an (empty) comment token at end of input, so `tokenize` would never see `TkEof`.
         if self.reader.is_eof() {
             self.reader.reset_buff();
             return SqlTokenData::new(SqlTokenKind::TkEof, self.reader.current_range());
+        }
+
+        // 如果在多行注释状态中，继续处理注释
+        if self.state == LexerState::LongComment(0) {
+            return self.scan_block_comment_continue();
         }
 
         self.reader.reset_buff();
